@@ -178,6 +178,11 @@ S5Set ==
         EMatch(V("e"), <<Arm(MLeft("l", T8), V("l")), Arm(MRight("x", T8), V("x"))>>), EMatch(V("e"), <<Arm(MLeft("l", T16), Dec(1)), Arm(MRight("x", T8), V("x"))>>),
         EMatch(V("e"), <<Arm(MLeft("l", T8), V("l")), Arm(MLeft("x", T8), V("x"))>>), EMatch(V("e"), <<Arm(MLeft("l", T8), V("x")), Arm(MRight("x", T16), V("l"))>>),
         EMatch(V("e"), <<Arm(MLeft("l", T8), V("l")), Arm(MRight("l", T16), Dec(1))>>),
+        \* the variable of one arm is not in scope in the other arm (either textual order)
+        EMatch(V("e"), <<Arm(MLeft("l", T8), V("l")), Arm(MRight("x", T16), V("l"))>>),
+        EMatch(V("e"), <<Arm(MRight("x", T16), V("l")), Arm(MLeft("l", T8), V("l"))>>),
+        EMatch(V("e"), <<Arm(MLeft("l", T8), Dec(1)), Arm(MRight("x", T16), V("l"))>>),
+        EMatch(V("o"), <<Arm(MSome("v", T8), V("v")), Arm(MNone, V("v"))>>),
         EMatch(V("c"), <<Arm(MFalse, Dec(0)), Arm(MTrue, Dec(1))>>), EMatch(V("c"), <<Arm(MTrue, Dec(0)), Arm(MFalse, Dec(1))>>),
         EMatch(V("c"), <<Arm(MTrue, Dec(0)), Arm(MTrue, Dec(1))>>), EMatch(V("c"), <<Arm(MFalse, Dec(0)), Arm(MTrue, EBool(TRUE))>>),
         EMatch(V("c"), <<Arm(MNone, Dec(0)), Arm(MSome("v", T8), V("v"))>>), EMatch(Dec(1), <<Arm(MFalse, Dec(0)), Arm(MTrue, Dec(1))>>),
